@@ -8,6 +8,7 @@
      (4 testing path (name ..) (b ..) (op ..) (op ..))
                                              -> sqlite_open testing path names (pw_run pw_init ops1)
                                                                              (sq_run sq_init ops2)
+     (5 testing)                             -> sq_created_files testing : (name ..)
    result of 3 / 4:
      (res legacy_tables_unchanged ((rowid id meta) ..) ((id bucketrow start end data) ..)
           (view_new ..) (view_legacy ..))       views over the universe (b ..), as in ExC02
@@ -138,6 +139,11 @@ Definition driver_entry (s : sexp) : sexp :=
           let pw := pw_run pw_init ops1 in
           outcome_s univ pw (sqlite_open t p names pw (sq_run sq_init ops2))
       | _, _, _, _, _, _ => bad_case
+      end
+  | L [A 5; t] =>
+      match sBool t with
+      | Some t => L (map name_s (sq_created_files t))
+      | None => bad_case
       end
   | _ => bad_case
   end.
